@@ -43,6 +43,35 @@ where signAllList : List PK → Nat → List Sig
   | [], _ => []
   | k :: ks, m => signAll k m :: signAllList ks m
 
+/-! ### signature depth (`ValidateSignatureDepth` / `recSignDepth` of x/auth/ante.go) -/
+
+mutual
+/-- `recSignDepth(count, limit, multi ks)`: every component raises the count by one, a multisignature component is
+walked recursively, and the walk fails as soon as the count exceeds the limit -/
+def recDepthKey (limit : Nat) : Nat → PK → Nat × Bool
+  | count, .leaf _ => (count, true)
+  | count, .multi ks => recDepth limit count ks
+def recDepth (limit : Nat) : Nat → List PK → Nat × Bool
+  | count, [] => (count, true)
+  | count, k :: rest =>
+    match recDepthKey limit (count + 1) k with
+    | (c, false) => (c, false)
+    | (c, true) => if c > limit then (c, false) else recDepth limit c rest
+end
+
+/-- `ValidateSignatureDepth(limit, multi ks)` -/
+def validDepth (limit : Nat) (ks : List PK) : Bool := (recDepth limit 1 ks).2
+
+mutual
+/-- the number of keys below a key, at any depth -/
+def nodes : PK → Nat
+  | .leaf _ => 0
+  | .multi ks => nodesList ks
+def nodesList : List PK → Nat
+  | [] => 0
+  | k :: rest => 1 + nodes k + nodesList rest
+end
+
 /-! ### keybase -/
 
 structure Armor where
